@@ -1,0 +1,15 @@
+//go:build verif
+
+// Contracts for package repl, checked by /verif/govc (comment-only; compiled only under tag verif).
+package repl
+
+// AutoSave (C18): the state file is only ever replaced by renaming a temporary file that was created by
+// CreateTemp and completely written (SaveGlobals returned nil, so no write failed); nothing is touched
+// when nothing changed.  The ghost state is attached to *os.File by the assumed contracts of os/fmt.
+//@ func AutoSave
+//@   requires s != nil
+//@   modifies *
+//@   nosafety
+//@   precall CreateTemp requires dirty:: updates != 0
+//@   precall SaveGlobals requires directfile:: isType(arg1, *os.File)
+//@   property C18
